@@ -22,7 +22,7 @@ func checkControllerTable(c *Ctx) {
 		return
 	}
 	roles := phiRoles(loop.Header, map[string]func(*ssa.Phi) bool{"initialized": phiTypeIs("bool")})
-	w := &Walker{P: c.P, Inline: map[*ssa.Function]bool{}, PhiNames: roles}
+	w := &Walker{P: c.P, PhiNames: roles}
 	paths := w.IterRegion(fn, loop)
 	if w.Truncated {
 		c.undecided(rule, "controller.run/too-many-paths", pos, "path limit exceeded")
@@ -32,7 +32,7 @@ func checkControllerTable(c *Ctx) {
 	isLC, isCache, isWatcher, isLister := fld("lc"), fld("cache"), fld("watcher"), fld("lister")
 	armOf := func(pa *Path) (string, *Effect) {
 		for _, e := range pa.Effects {
-			if e.Kind == "select" && e.Blocking && e.Depth == 0 {
+			if e.Kind == "select" && e.Blocking {
 				if e.Arm < 0 {
 					return "?", e
 				}
@@ -511,6 +511,14 @@ func checkListHelpers(c *Ctx) {
 							apps++
 							if !(len(e.Args) == 2 && e.Args[1].K == "typeassert") {
 								bad = "appends something other than the asserted element"
+							}
+						}
+						// or: result[i] = asserted element, for the loop's own index i
+						if e.Kind == "store" && e.Addr.K == "iaddr" && e.Val.K == "typeassert" {
+							apps++
+							src := e.Val.A[0]
+							if !(src.K == "index" && sameTerm(src.A[1], e.Addr.A[1])) {
+								bad = "stores the element at an index other than its own"
 							}
 						}
 					}
